@@ -201,6 +201,10 @@ def exec_image(image, name, fast_load, get_code, count_steps, tag="r"):
     old_out, old_err = sys.stdout, sys.stderr
     sink_out, sink_err = corpus.Sink(), corpus.Sink()
     budget = STEP_BASE + STEP_PER_BYTE * len(image)
+    if sys.version_info < (3, 9):
+        # CPython 3.8 aborts ("Cannot recover from stack overflow") when a trace function runs at the
+        # recursion edge of a nesting bomb: a harness artefact, so 3.8 nodes rely on the wall watchdog only
+        count_steps = False
     clock = audit.StepClock(budget) if count_steps else None
     rec = {"outcome": None, "violation": None, "site": None, "steps": None, "fast_path": False, "exc": None}
     rss0 = _maxrss_kb()
@@ -313,7 +317,7 @@ def run_single_image(image, name, fast_load, get_code, force_steps, wall=90.0):
     flog = os.path.join(W["rundir"], "fault-%d.log" % os.getpid())
     marker = os.path.join(W["rundir"], "marker-%d" % os.getpid())
     r = core.fork_call(_single_child, (core.b64(image), name, fast_load, get_code, force_steps, marker),
-                       timeout=wall, faultlog_path=flog)
+                       timeout=wall, faultlog_path=flog, quiet=True)
     entered = False
     try:
         with open(marker, "rb") as f:
@@ -327,6 +331,8 @@ def run_single_image(image, name, fast_load, get_code, force_steps, wall=90.0):
             pass
     if r.status == "ok":
         return r.value
+    if sys.version_info < (3, 9) and predicts_fast_path(image, get_code):
+        entered = True  # 3.8 has no marshal.loads audit event: the magic decides
     if r.status == "signal":
         fp = entered or _faultlog_in_fast_path(r.faultlog)
         return {"outcome": "crash", "site": _fault_site(r.faultlog), "steps": None, "fast_path": fp, "exc": None,
@@ -682,9 +688,10 @@ def run_sweep_positions_single(bi, kind, pos):
 
 TIERS = {
     # runs: seeded composed-fault runs; produce: (n_xdis, n_stdlib) per producer
-    "quick": {"runs": 60000, "produce": (3, 3), "sweep_prefix_files": 0, "sweep_bytes_files": 0, "wall_cap": 100},
-    "thorough": {"runs": 1500000, "produce": (30, 40), "sweep_prefix_files": -1, "sweep_bytes_files": -1,
-                 "wall_cap": 3000},
+    "quick": {"runs": 45000, "other_host_runs": 3000, "produce": (3, 3), "sweep_prefix_files": 0,
+              "sweep_bytes_files": 0, "wall_cap": 100},
+    "thorough": {"runs": 1500000, "other_host_runs": 200000, "produce": (30, 40), "sweep_prefix_files": -1,
+                 "sweep_bytes_files": -1, "wall_cap": 3000},
 }
 
 
@@ -779,6 +786,15 @@ def replay(path):
 
     with open(path) as f:
         r = json.load(f)
+    me = "%d.%d.%d" % sys.version_info[:3]
+    if r.get("host") and r["host"] != me and os.environ.get("XDIS_VERIF_REPLAY_SUB") != "1":
+        for tag, exe in core.host_pythons():
+            if tag == r["host"]:
+                import subprocess
+
+                p = subprocess.run([exe, "-B", "-s", os.path.join(core.VERIF_DIR, "sim", "main.py"), "C11",
+                                    "--replay", path], env=core.child_env({"XDIS_VERIF_REPLAY_SUB": "1"}))
+                return p.returncode
     W["rundir"] = os.path.join(core.scratch_dir(), "c11")
     os.makedirs(W["rundir"], exist_ok=True)
     core.verify_xdis_origin()
@@ -801,50 +817,19 @@ def replay(path):
     return core.EXIT_OK
 
 
-def main(opts):
-    t0 = time.time()
-    tier = opts["tier"]
-    master = opts["seed"]
-    cfg = dict(TIERS[tier])
-    if opts.get("runs"):
-        cfg["runs"] = int(opts["runs"])
-    workers = opts.get("workers") or core.default_workers()
-    core.log("[C11] tier=%s seed=%d host=%s workers=%d" % (tier, master, sys.version.split()[0], workers))
-    produced = corpus.produce_corpus(master, cfg["produce"][0], cfg["produce"][1])
-    prepare(master, tier, produced)
-    core.log("[C11] corpus: %d base files (%d produced), host magic %s, prepared in %.1fs" % (
-        len(W["bases"]), len(produced), W["host_magic"], time.time() - t0))
-    nruns = cfg["runs"]
+def seeded_phase(nruns, workers, wall_cap, t0):
     shards = [(lo, min(nruns, lo + SHARD)) for lo in range(0, nruns, SHARD)]
-    # wall cap: evaluate in waves so that a slow machine explores less instead of failing
     aggs = []
     wave = workers * 4
-    done_runs = 0
     for w0 in range(0, len(shards), wave):
-        if time.time() - t0 > cfg["wall_cap"]:
-            core.log("[C11] wall cap reached after %d runs" % done_runs)
+        if time.time() - t0 > wall_cap:
+            core.log("[C11] wall cap reached after %d runs" % sum(a["runs"] for a in aggs))
             break
-        part = core.run_sharded(run_shard, shards[w0:w0 + wave], workers)
-        aggs.extend(part)
-        done_runs = sum(a["runs"] for a in aggs)
-    tot = merge(aggs)
-    t_runs = time.time() - t0
-    # ---- determinism self-test (small): first shard twice more, different worker layout
-    det_ok = True
-    if not opts.get("no_selftest"):
-        a1 = run_shard((0, 48))
-        a2 = merge(core.run_sharded(run_shard, [(0, 16), (16, 32), (32, 48)], 3))
-        d1 = _agg_digest(a1)
-        d2 = _agg_digest(a2)
-        if d1 != d2:
-            det_ok = False
-    # ---- sweeps
-    sweep = {"prefix_evals": 0, "byte_evals": 0, "violations": [], "outcomes": {}, "files_prefix": 0,
-             "files_bytes": 0, "exhaustive_prefix": False}
-    if cfg["sweep_prefix_files"]:
-        sweep = run_sweeps(cfg, workers, t0)
-    # ---- violations
-    findings = core.load_known_findings()
+        aggs.extend(core.run_sharded(run_shard, shards[w0:w0 + wave], workers))
+    return merge(aggs)
+
+
+def collect_violations(tot, sweep):
     viols = []
     seen_classes = {}
     for x in tot["violations"]:
@@ -866,10 +851,111 @@ def main(opts):
         viols.append({"v": x["v"], "image": core.unb64(x["img"]), "name": b.name, "fast_load": False,
                       "get_code": True, "base": b.data,
                       "origin": {"sweep": x["kind"], "what": x["what"], "base": b.describe()}})
+    return viols
+
+
+def host_summary(tot, t_runs):
+    return {"runs": tot["runs"], "changed": tot["changed"], "controls": tot["controls"],
+            "controls_ok": tot["controls_ok"], "outcomes": tot["outcomes"], "fault_kinds": tot["fault_kinds"],
+            "fast_path_runs": tot["fast_path_runs"], "fast_path_faulted": tot["fast_path_faulted"],
+            "steps_total": tot["steps_total"], "steps_runs": tot["steps_runs"],
+            "steps_max_ratio": round(tot["steps_max_ratio"], 2), "triples": len(tot["triples"]),
+            "anomalies": tot["anomalies"][:5], "wall": round(t_runs, 2)}
+
+
+def sub_main(opts):
+    """one non-primary host: seeded runs on the coordinator's corpus; result JSON to opts['sub']"""
+    import json
+
+    t0 = time.time()
+    master = opts["seed"]
+    workers = opts.get("workers") or core.default_workers()
+    prepare(master, opts["tier"], corpus.load_produced())
+    tot = seeded_phase(int(opts["runs"]), workers, 3000, t0)
+    t_runs = time.time() - t0
+    findings = core.load_known_findings()
     lines = []
     ev_v = {"known": {}, "replays": []}
-    n_unknown = report_violations(master, viols, findings, lines, ev_v)
+    sweep0 = {"violations": []}
+    n_unknown = report_violations(master, collect_violations(tot, sweep0), findings, lines, ev_v)
     witnessed = replay_witnesses(findings)
+    out = {"host": "%d.%d.%d" % sys.version_info[:3], "summary": host_summary(tot, t_runs), "lines": lines,
+           "n_unknown": n_unknown, "known": ev_v["known"], "replays": ev_v["replays"], "witnessed": witnessed,
+           "triples": sorted(tot["triples"]), "digest_verdict": "%016x" % tot["digest_verdict"]}
+    with open(opts["sub"], "w") as f:
+        json.dump(out, f)
+    return core.EXIT_OK
+
+
+def run_other_hosts(master, tier, nruns, workers):
+    import json
+    import subprocess
+
+    me = "%d.%d.%d" % sys.version_info[:3]
+    outs = []
+    for tag, exe in core.host_pythons():
+        if tag == me:
+            continue
+        outp = os.path.join(W["rundir"], "sub-%s.json" % tag)
+        p = subprocess.run([exe, "-B", "-s", os.path.join(core.VERIF_DIR, "sim", "main.py"), "C11", "--tier", tier,
+                            "--seed", str(master), "--runs", str(nruns), "--workers", str(workers), "--sub", outp],
+                           env=core.child_env(), stdout=subprocess.PIPE, stderr=subprocess.PIPE, timeout=3600)
+        if p.returncode != 0:
+            raise core.HarnessError("C11 on host %s failed (%d): %s" % (tag, p.returncode,
+                                                                       p.stderr.decode(errors="replace")[-600:]))
+        with open(outp) as f:
+            outs.append(json.load(f))
+    return outs
+
+
+def main(opts):
+    if opts.get("sub"):
+        return sub_main(opts)
+    t0 = time.time()
+    tier = opts["tier"]
+    master = opts["seed"]
+    cfg = dict(TIERS[tier])
+    if opts.get("runs"):
+        cfg["runs"] = int(opts["runs"])
+        cfg["other_host_runs"] = max(200, int(opts["runs"]) // 15)
+    workers = opts.get("workers") or core.default_workers()
+    core.log("[C11] tier=%s seed=%d host=%s workers=%d" % (tier, master, sys.version.split()[0], workers))
+    produced = corpus.produce_corpus(master, cfg["produce"][0], cfg["produce"][1])
+    prepare(master, tier, produced)
+    core.log("[C11] corpus: %d base files (%d produced), host magic %s, prepared in %.1fs" % (
+        len(W["bases"]), len(produced), W["host_magic"], time.time() - t0))
+    tot = seeded_phase(cfg["runs"], workers, cfg["wall_cap"], t0)
+    t_runs = time.time() - t0
+    # ---- the same simulation on every other host interpreter (each has its own fast path)
+    others = []
+    if cfg.get("other_host_runs") and not opts.get("no_hosts"):
+        others = run_other_hosts(master, tier, cfg["other_host_runs"], workers)
+    # ---- determinism self-test (small): first shard twice more, different worker layout
+    det_ok = True
+    if not opts.get("no_selftest"):
+        a1 = run_shard((0, 48))
+        a2 = merge(core.run_sharded(run_shard, [(0, 16), (16, 32), (32, 48)], 3))
+        if _agg_digest(a1) != _agg_digest(a2):
+            det_ok = False
+    # ---- sweeps
+    sweep = {"prefix_evals": 0, "byte_evals": 0, "violations": [], "outcomes": {}, "files_prefix": 0,
+             "files_bytes": 0, "exhaustive_prefix": False}
+    if cfg["sweep_prefix_files"]:
+        sweep = run_sweeps(cfg, workers, t0)
+    # ---- violations
+    findings = core.load_known_findings()
+    lines = []
+    ev_v = {"known": {}, "replays": []}
+    n_unknown = report_violations(master, collect_violations(tot, sweep), findings, lines, ev_v)
+    witnessed = replay_witnesses(findings)
+    for o in others:
+        n_unknown += o["n_unknown"]
+        lines.extend(o["lines"])
+        ev_v["replays"].extend(o["replays"])
+        for k, v in o["known"].items():
+            ev_v["known"][k] = ev_v["known"].get(k, 0) + v
+        for k, v in o["witnessed"].items():
+            witnessed[k] = witnessed.get(k, False) or v
     for f in findings:
         if f.get("property") == PROP and f.get("status") == "known":
             fid = f.get("id")
@@ -885,18 +971,22 @@ def main(opts):
         all_viol_classes[k] = all_viol_classes.get(k, 0) + 1
     wall = time.time() - t0
     # ---- evidence
-    triples = tot["triples"]
+    triples = set(tot["triples"])
+    for o in others:
+        triples.update("%s@%s" % (t, o["host"]) for t in o["triples"])
+    other_runs = sum(o["summary"]["runs"] for o in others)
     coverage = {
-        "evaluations": tot["runs"] + sweep["prefix_evals"] + sweep["byte_evals"],
+        "evaluations": tot["runs"] + other_runs + sweep["prefix_evals"] + sweep["byte_evals"],
         "distinct_nontrivial": len(triples),
         "rule": "one evaluation = one real load_module call on a real file holding a stored image; seeded runs "
                 "compose 1-4 storage faults (crash prefix, torn block write, bit rot, lost/duplicated/misdirected "
                 "extents, read-map-aimed adversarial fields, header faults, nesting bombs) on a valid base file, or "
                 "synthesise a not-bytecode input; distinct_nontrivial counts distinct (set of fault kinds that "
-                "changed the image, outcome, innermost xdis raise site, verdict class) among runs whose image "
-                "differs from its base",
+                "changed the image, outcome, innermost xdis raise site, verdict class[, other host]) among runs whose "
+                "image differs from its base",
         "samples": tot["samples"][:5] or [{"note": "no faulted sample recorded"}],
         "seeded_runs": tot["runs"],
+        "seeded_runs_on_other_hosts": dict((o["host"], o["summary"]) for o in others),
         "runs_image_changed": tot["changed"],
         "control_runs": tot["controls"],
         "control_runs_clean": tot["controls_ok"],
@@ -915,7 +1005,7 @@ def main(opts):
         "bytes_loaded": tot["bytes"],
         "base_files": len(W["bases"]),
         "base_files_produced_at_check_time": len(produced),
-        "sweep": {k: sweep[k] for k in sweep if k != "violations"},
+        "sweep": dict((k, sweep[k]) for k in sweep if k != "violations"),
         "violation_classes": all_viol_classes,
         "known_findings_matched": ev_v["known"],
         "known_finding_witnesses_reproduced": witnessed,
@@ -931,21 +1021,24 @@ def main(opts):
     }
     core.write_evidence(PROP, tier, master, coverage, wall, n_unknown, [
         "audit hooks see Python-level events only", "inputs are capped at 64 KiB",
-        "a child killed by a signal after load.py handed the bytes to CPython's marshal.loads is the known finding "
-        "D13; any other crash is a violation",
+        "a child killed by a signal (or growing by > 256 MiB) after load.py handed the bytes to CPython's "
+        "marshal.loads is the known finding D13; any other crash is a violation",
         "RLIMIT_AS = baseline + 1 GiB in every child; resident-set growth above 256 MiB is a violation",
+        "on a 3.8 node the step clock is off (CPython 3.8 aborts when a trace function runs at the recursion edge) "
+        "and the fast path is recognised by the file's magic (no marshal.loads audit event before 3.9)",
     ])
     for ln in lines:
         print(ln)
-    core.log("[C11] %d runs (%d changed, %d controls), %d sweep evals, %d distinct classes, %.1fs; outcomes %s" % (
-        tot["runs"], tot["changed"], tot["controls"], sweep["prefix_evals"] + sweep["byte_evals"], len(triples), wall,
-        tot["outcomes"]))
-    if tot["anomalies"]:
-        core.log("[C11] HARNESS-ERROR: non-reproducible batch outcomes: %s" % tot["anomalies"][:3])
+    core.log("[C11] %d runs (%d changed, %d controls) + %d on %d other hosts, %d sweep evals, %d distinct classes, "
+             "%.1fs; outcomes %s" % (tot["runs"], tot["changed"], tot["controls"], other_runs, len(others),
+                                     sweep["prefix_evals"] + sweep["byte_evals"], len(triples), wall, tot["outcomes"]))
+    anomalies = list(tot["anomalies"])
+    for o in others:
+        anomalies.extend(o["summary"]["anomalies"])
+    if anomalies:
+        core.log("[C11] HARNESS-ERROR: non-reproducible batch outcomes: %s" % anomalies[:3])
         return core.EXIT_HARNESS
     if tot["controls"] and tot["controls_ok"] != tot["controls"]:
-        # a control that fails is reported through its own violation (if any); a control that
-        # raised ImportError means a valid file was rejected - that is C01's business, not C11's.
         core.log("[C11] note: %d of %d fault-free controls did not return a tuple" % (
             tot["controls"] - tot["controls_ok"], tot["controls"]))
     if not det_ok:
